@@ -387,9 +387,20 @@ fn main() {
 }
 #[allow(dead_code)]
 pub fn dbg() {
-    for (css, html) in [("#pp{color:#ff0000;} p{color:#0000ff;}", "<div id=pp class=k><p id=cc class=c>x</p></div>")] {
-        let cfg = config::rich().add_css(css).unwrap();
-        let lines = cfg.lines_from_read(html.as_bytes(), 80).unwrap();
-        for l in lines { for ts in l.tagged_strings() { println!("{} | {} -> {:?} {:?}", css, html, ts.s, ts.tag); } }
+    // replay dbg <width> <flags: b=no_table_borders r=raw_mode f=link_footnotes o=allow_width_overflow> <html>
+    let a: Vec<String> = std::env::args().collect();
+    let width: usize = a.get(2).and_then(|s| s.parse().ok()).unwrap_or(20);
+    let flags = a.get(3).cloned().unwrap_or_default();
+    let html = a.get(4).cloned().unwrap_or_default();
+    let mut cfg = config::plain();
+    if flags.contains('b') { cfg = cfg.no_table_borders(); }
+    if flags.contains('r') { cfg = cfg.raw_mode(true); }
+    if flags.contains('f') { cfg = cfg.link_footnotes(true); }
+    if flags.contains('o') { cfg = cfg.allow_width_overflow(); }
+    let r = std::panic::catch_unwind(|| cfg.string_from_read(html.as_bytes(), width));
+    match r {
+        Ok(Ok(s)) => println!("OK:\n{}", s),
+        Ok(Err(e)) => println!("ERR: {:?}", e),
+        Err(_) => println!("PANIC"),
     }
 }
